@@ -16,12 +16,12 @@ pub fn run(ctx: &Ctx) -> i32 {
     };
     let acc = sweep(ctx, &alpha, 2, &deep, &check_conservation);
     let meta = Meta {
-        rule: "every macro program of depth <= 2 on every spec and <= 3 on one spec (quick) / all specs (thorough) over a 67-macro alphabet x 14 transaction variants x 19 mainnet specs, executed with Evm::transact; distinct = distinct (spec, class, reason, gas used, refund, log count)".into(),
+        rule: "every macro program of depth <= 2 on every spec and <= 3 on one spec (quick) / all specs (thorough) over a 69-macro alphabet x 15 transaction variants x 19 mainnet specs, executed with Evm::transact; distinct = distinct (spec, class, reason, gas used, refund, log count)".into(),
         assumptions: vec![
             "burned ether = base fee x gas used + blob fee + what accounts deleted by SELFDESTRUCT held (self-targeted burns in committed frames, read by the step monitor, plus their final balance) + the tip when rewards are disabled".into(),
             "post-state total is computed after an independent commit rule (touched only, destroyed => deleted, EIP-161)".into(),
         ],
-        bounds: json!({"depth": "2 on every spec; 3 on one spec (quick) / on all 19 specs (thorough)", "thorough_depth_on": "FRONTIER,BYZANTIUM,LONDON,CANCUN,PRAGUE: 3", "macros": alpha.len(), "tx_variants": 14}),
+        bounds: json!({"depth": "2 on every spec; 3 on one spec (quick) / on all 19 specs (thorough)", "thorough_depth_on": "FRONTIER,BYZANTIUM,LONDON,CANCUN,PRAGUE: 3", "macros": alpha.len(), "tx_variants": 15}),
         min_distinct: 300,
         exhaustive: true,
         explanation: "BigUint sums over the whole world before and after".into(),
